@@ -21,6 +21,7 @@ import (
 	"github.com/goplus/xgo/scanner"
 	"github.com/goplus/xgo/token"
 	"github.com/goplus/xgo/tool"
+	"github.com/goplus/xgo/x/typesutil"
 
 	"verif/fw"
 )
@@ -130,6 +131,7 @@ type compileOpts struct {
 	Budget       int64  // cl step budget (0 = none)
 	GenMain      bool   // auto-generate main if no entry
 	Order        []int  // presentation order of the files (indices into names); nil = sorted
+	Recorder     bool   // compile with an x/typesutil recorder attached (Config.Recorder != nil)
 }
 
 type compileResult struct {
@@ -221,6 +223,12 @@ func compileXGo(repo string, files map[string]string, o compileOpts) (res compil
 		NoFileLine:    !o.FileLine,
 		NoAutoGenMain: !o.GenMain,
 		RelativeBase:  o.RelativeBase,
+	}
+	if o.Recorder {
+		conf.Recorder = typesutil.NewRecorder(&typesutil.Info{
+			Types: map[ast.Expr]types.TypeAndValue{}, Defs: map[*ast.Ident]types.Object{}, Uses: map[*ast.Ident]types.Object{},
+			Implicits: map[ast.Node]types.Object{}, Selections: map[*ast.SelectorExpr]*types.Selection{}, Scopes: map[ast.Node]*types.Scope{},
+			Overloads: map[*ast.Ident]types.Object{}, Instances: map[*ast.Ident]types.Instance{}})
 	}
 	if o.Budget > 0 {
 		cl.VerifReset(o.Budget)
